@@ -8,6 +8,8 @@ package main
 
 import (
 	"bytes"
+	"crypto/ecdsa"
+	"crypto/sha256"
 	"encoding/base64"
 	"encoding/binary"
 	"encoding/hex"
@@ -28,6 +30,7 @@ import (
 
 	"com.tuntun.rangers/node/src/common"
 	"com.tuntun.rangers/node/src/core"
+	crypto "com.tuntun.rangers/node/src/eth_crypto"
 	"com.tuntun.rangers/node/src/executor"
 	"com.tuntun.rangers/node/src/middleware"
 	"com.tuntun.rangers/node/src/middleware/types"
@@ -53,14 +56,16 @@ type txSpec struct {
 }
 
 type kase struct {
-	SBal   string     `json:"sbal"`           // balance of sender A (wei, decimal)
-	RBal   string     `json:"rbal"`           // balance of recipients B and D
-	CBal   string     `json:"cbal"`           // balance of every contract
-	XBal   string     `json:"xbal,omitempty"` // balance pre-loaded at the first CREATE address of A
-	DBal   string     `json:"dbal,omitempty"` // balance of the second ("dust") sender D2
-	Prog   string     `json:"prog,omitempty"` // program label installed at C0
-	Blocks [][]txSpec `json:"blocks"`         // consecutive blocks, executed on one state
-	Settle bool       `json:"settle"`         // append an empty block at the refund height
+	SBal   string     `json:"sbal"`            // balance of sender A (wei, decimal)
+	RBal   string     `json:"rbal"`            // balance of recipients B and D
+	CBal   string     `json:"cbal"`            // balance of every contract
+	XBal   string     `json:"xbal,omitempty"`  // balance pre-loaded at the first CREATE address of A
+	DBal   string     `json:"dbal,omitempty"`  // balance of the second ("dust") sender D2
+	KBal   string     `json:"kbal,omitempty"`  // balance of the AUTH authority K (harness key)
+	Prog2  string     `json:"prog2,omitempty"` // program label installed at the second invoker CI
+	Prog   string     `json:"prog,omitempty"`  // program label installed at C0
+	Blocks [][]txSpec `json:"blocks"`          // consecutive blocks, executed on one state
+	Settle bool       `json:"settle"`          // append an empty block at the refund height
 }
 
 func (k kase) ntx() int {
@@ -99,6 +104,8 @@ var (
 		"CC": common.HexToAddress("0x00000000000000000000000000000000c0de0005"), // selfdestruct(caller)
 		"N":  common.HexToAddress("0x000000000000000000000000000000000e0e0001"), // never touched before
 		"D2": common.HexToAddress("0x00000000000000000000000000000000000d0002"), // second sender, usually almost empty
+		"CI": common.HexToAddress("0x00000000000000000000000000000000c0de0006"), // second program slot (nested invoker)
+		"K":  crypto.PubkeyToAddress(authKey.PublicKey),                         // AUTH authority (harness-owned key)
 		"P2": common.HexToAddress("0x0000000000000000000000000000000000000002"), // precompile sha256
 	}
 	helperProg = map[string]string{"CP": "stop", "CS": "sdself", "CO": "sdother", "CR": "revert", "CC": "sdcaller"}
@@ -241,13 +248,90 @@ func initCode(label string) []byte {
 	return p.Bytes()
 }
 
-func progCode(label string) []byte {
+// authKey is the harness-owned key of the AUTH authority K.
+var authKey = func() *ecdsa.PrivateKey {
+	h := sha256.Sum256([]byte("c06-auth-authority"))
+	k, err := crypto.ToECDSA(h[:])
+	if err != nil {
+		panic(err)
+	}
+	return k
+}()
+
+var authSigCache = map[common.Address][]byte{}
+
+// authInput is (v, r, s, commit) as opAuth reads it from memory: a real low-s secp256k1 signature
+// of K over keccak(0x03 || chainId || invoker || commit).
+func authInput(invoker common.Address) []byte {
+	if b := authSigCache[invoker]; b != nil {
+		return b
+	}
+	commit := keccak([]byte("c06 commit"))
+	msg := make([]byte, 97)
+	msg[0] = 0x03
+	cid := common.GetChainId(baseHeight).Bytes()
+	copy(msg[33-len(cid):33], cid)
+	copy(msg[65-20:65], invoker.Bytes())
+	copy(msg[65:], commit)
+	sig, err := crypto.Sign(keccak(msg), authKey)
+	if err != nil {
+		panic(err)
+	}
+	in := make([]byte, 128)
+	in[31] = sig[64] + 27
+	copy(in[32:64], sig[0:32])
+	copy(in[64:96], sig[32:64])
+	copy(in[96:128], commit)
+	authSigCache[invoker] = in
+	return in
+}
+
+func authValue(label string) *big.Int {
+	switch label {
+	case "w":
+		return big.NewInt(1)
+	case "m":
+		return new(big.Int).Set(ten18)
+	}
+	panic("auth value " + label)
+}
+
+func progCode(label string) []byte { return progCodeAt(label, addrs["C0"]) }
+
+// progCodeAt assembles the program for installation at address self (AUTH signatures bind the invoker).
+func progCodeAt(label string, self common.Address) []byte {
 	if label == "" {
 		return nil
 	}
 	f := strings.Split(label, ":")
 	p := asm.New()
 	switch f[0] {
+	case "auth", "auth2": // auth:<recipient>:<w|m>:<valueExt>:<ending>: AUTH by K, then AUTHCALL(s) carrying value paid by tx.origin
+		in := authInput(self)
+		for i := 0; i < 4; i++ {
+			p.PushN(32, in[32*i:32*i+32]).Push(32 * i).Op(vm.MSTORE)
+		}
+		p.Push(128).Push(0).PushN(20, addrs["K"].Bytes()).Raw(byte(vm.AUTH)).Op(vm.POP)
+		ext, _ := strconv.Atoi(f[3])
+		n := 1
+		if f[0] == "auth2" {
+			n = 2
+		}
+		for i := 0; i < n; i++ {
+			// AUTHCALL(authorizedNonce, gas, addr, value, valueExt, argsOffset, argsLength, retOffset, retLength)
+			p.Push(0).Push(0).Push(0).Push(0).Push(ext).Push(authValue(f[2]))
+			if f[1] == "self" {
+				p.Op(vm.ADDRESS)
+			} else {
+				p.PushN(20, addrs[f[1]].Bytes())
+			}
+			p.Push(0).Push(i).Raw(byte(vm.AUTHCALL)).Op(vm.POP)
+		}
+		endOf(p, f[4])
+	case "static": // static:<target>:<ending>: STATICCALL into the target
+		p.Push(0).Push(0).Push(0).Push(0)
+		p.PushN(20, addrs[f[1]].Bytes()).Op(vm.GAS, vm.STATICCALL, vm.POP)
+		endOf(p, f[2])
 	case "stop":
 		p.Op(vm.STOP)
 	case "revert":
@@ -534,7 +618,7 @@ func newWorld(k kase) *world {
 		w.addU(fmt.Sprintf("create(A,%d)", n), createAddress(addrs["A"], n))
 		w.addU(fmt.Sprintf("create(D2,%d)", n), createAddress(addrs["D2"], n))
 	}
-	for _, c := range append([]string{"C0"}, helpers...) {
+	for _, c := range append([]string{"C0", "CI"}, helpers...) {
 		for n := uint64(0); n < 4; n++ {
 			w.addU(fmt.Sprintf("create(%s,%d)", c, n), createAddress(addrs[c], n))
 		}
@@ -581,6 +665,14 @@ func newWorld(k kase) *world {
 		db.SetNonce(addrs["C0"], 1)
 	}
 	db.SetBalance(addrs["C0"], parseWei(k.CBal))
+	if k.Prog2 != "" {
+		db.SetCode(addrs["CI"], progCodeAt(k.Prog2, addrs["CI"]))
+		db.SetNonce(addrs["CI"], 1)
+		db.SetBalance(addrs["CI"], parseWei(k.CBal))
+	}
+	if k.KBal != "" {
+		db.SetBalance(addrs["K"], parseWei(k.KBal))
+	}
 	if k.XBal != "" {
 		db.SetBalance(createAddress(addrs["A"], 0), parseWei(k.XBal))
 	}
@@ -617,15 +709,26 @@ func msgClass(msg string) string {
 // opcode family it runs when that is one of the chain's own extensions (stake/unstake/...),
 // and ":fail"/":evicted" when it did not succeed.  Ordinary EVM program shapes are left out so
 // that one defect in shared code does not get a signature per program.
-func txLabel(s txSpec, prog, outcome string) string {
+func txLabel(s txSpec, k kase, outcome string) string {
 	l := s.Kind
 	switch s.Kind {
 	case "call":
 		l = "contract-call"
 		if s.To[0] == "C0" {
-			switch f := family(prog); f {
-			case "stake", "unstake", "unstakeall":
-				l += ":" + f
+			for _, pl := range []string{k.Prog, k.Prog2} {
+				switch f := family(pl); f {
+				case "stake", "unstake", "unstakeall":
+					l += ":" + f
+				case "auth", "auth2":
+					// input class: can tx.origin (the payer of an AUTHCALL's value) afford the value at all?
+					l += ":auth"
+					own := new(big.Int).Sub(parseWei(k.SBal), feeWei)
+					if own.Cmp(authValue(strings.Split(pl, ":")[2])) < 0 {
+						l += ":origin-short"
+					} else {
+						l += ":origin-covers-value"
+					}
+				}
 			}
 		}
 	case "create":
@@ -915,7 +1018,7 @@ func signature(k kase, obs string, outcomes []string) string {
 			if i < len(outcomes) {
 				oc = outcomes[i]
 			}
-			labels = append(labels, txLabel(s, k.Prog, oc))
+			labels = append(labels, txLabel(s, k, oc))
 			i++
 		}
 	}
@@ -1227,6 +1330,108 @@ func enumerate(e *enumerator) {
 						Blocks: [][]txSpec{{apply}, {{Kind: "call", To: []string{"C0"}, Amt: []string{v}}}}})
 				}
 			}
+		}
+	}
+	// ---- U: AUTH + AUTHCALL carrying value: the value is debited from tx.origin (the sponsor) while the call
+	// is made in the name of the authority K; balance grid {sponsor, authority, invoker} around the value
+	{
+		gasA := "5000000"
+		gA := new(big.Int).Mul(defaultGas(gasA), gasWei)
+		addw := func(xs ...*big.Int) string {
+			t := new(big.Int)
+			for _, x := range xs {
+				t.Add(t, x)
+			}
+			return t.String()
+		}
+		one := big.NewInt(1)
+		around := func(v *big.Int) []string {
+			var out []string
+			for _, x := range []string{"0", new(big.Int).Sub(v, one).String(), v.String(), new(big.Int).Add(v, one).String(), e27} {
+				if len(out) == 0 || out[len(out)-1] != x {
+					out = append(out, x)
+				}
+			}
+			return out
+		}
+		recips := []string{"B", "N", "CR", "CP", "CS", "K", "A", "self"}
+		call := func(sb, kb, cb, prog, prog2 string) {
+			e.do(kase{SBal: sb, RBal: "0", CBal: cb, KBal: kb, Prog: prog, Prog2: prog2,
+				Blocks: [][]txSpec{{{Kind: "call", To: []string{"C0"}, Amt: []string{"0"}, Gas: gasA}}}})
+		}
+		for _, vl := range []string{"m", "w"} {
+			v := authValue(vl)
+			// what the sponsor owns when the AUTHCALL runs is its balance minus the flat fee
+			sbs := []string{addw(feeWei, gA), addw(feeWei, v, big.NewInt(-1)), addw(feeWei, v), addw(feeWei, v, one),
+				addw(feeWei, v, gA, big.NewInt(-1)), addw(feeWei, v, gA), e27}
+			if vl == "w" {
+				sbs = []string{addw(feeWei, gA), addw(feeWei, gA, one), e27}
+			}
+			for _, rc := range recips {
+				for _, sb := range sbs {
+					for _, kb := range around(v) {
+						for _, cb := range around(v) {
+							for _, end := range []string{"stop", "revert"} {
+								call(sb, kb, cb, "auth:"+rc+":"+vl+":0:"+end, "")
+							}
+						}
+						// nested: the invoker CI is entered by CALL, by STATICCALL (must be refused), by CALL from a reverting frame
+						for _, cb := range []string{"0", v.String()} {
+							for _, outer := range []string{"call:CI:cv:stop", "static:CI:stop", "call:CI:cv:revert", "callcode:CI:cv:stop", "delegate:CI:stop"} {
+								call(sb, kb, cb, outer, "auth:"+rc+":"+vl+":0:stop")
+							}
+							call(sb, kb, cb, "auth2:"+rc+":"+vl+":0:stop", "")
+						}
+					}
+				}
+				// non-zero valueExt: refused before anything moves
+				for _, sb := range []string{sbs[0], e27} {
+					for _, kb := range []string{"0", e27} {
+						call(sb, kb, v.String(), "auth:"+rc+":"+vl+":1:stop", "")
+					}
+				}
+			}
+		}
+	}
+	// ---- P: every remaining payer exactly one short / exactly enough / one more
+	for _, d := range []int64{-1, 0, 1} {
+		dd := big.NewInt(d)
+		// the flat fee itself
+		e.do(kase{SBal: new(big.Int).Add(feeWei, dd).String(), RBal: "0", CBal: "0",
+			Blocks: [][]txSpec{{{Kind: "transfer", To: []string{"B"}, Amt: []string{"0"}}}}})
+		// STAKE paid by the contract that is the miner's account
+		for _, x := range []string{"1000000000000000000", "400000000000000000000"} {
+			e.do(kase{SBal: e27, RBal: "0", CBal: new(big.Int).Add(stakeArg(x), dd).String(), Prog: "stake:" + x, Settle: true,
+				Blocks: [][]txSpec{{{Kind: "apply", Miner: "M2", MType: int(common.MinerTypeValidator), Stake: 400, Acct: "C0"}},
+					{{Kind: "call", To: []string{"C0"}, Amt: []string{"0"}}}}})
+		}
+		// miner add paid by the sender (to a genesis validator and to an own miner)
+		for _, delta := range []uint64{1, 400} {
+			need := new(big.Int).Mul(new(big.Int).SetUint64(delta), ten18)
+			e.do(kase{SBal: new(big.Int).Add(new(big.Int).Add(feeWei, need), dd).String(), RBal: "0", CBal: "0", Settle: true,
+				Blocks: [][]txSpec{{{Kind: "add", Miner: "G", Stake: delta}}}})
+		}
+		// miner apply whose account (rich B / contract) differs from the paying sender
+		for _, acct := range []string{"B", "C0"} {
+			for _, st := range []uint64{400, 2000} {
+				mt := int(common.MinerTypeValidator)
+				if st == 2000 {
+					mt = int(common.MinerTypeProposer)
+				}
+				need := new(big.Int).Mul(new(big.Int).SetUint64(st), ten18)
+				e.do(kase{SBal: new(big.Int).Add(new(big.Int).Add(feeWei, need), dd).String(), RBal: e27, CBal: e27, Prog: "stop", Settle: true,
+					Blocks: [][]txSpec{{{Kind: "apply", Miner: "M1", MType: mt, Stake: st, Acct: acct}}}})
+			}
+		}
+		// value-carrying opcodes executed by a contract that owns exactly v-1 / v / v+1 while the sender is rich
+		// (and the reverse: the contract rich, the sender just able to pay gas)
+		vv := new(big.Int).Set(ten18)
+		for _, prog := range []string{"call:B:one:stop", "callcode:CP:over:stop", "create:plain:all:stop", "create2:plain:over:stop",
+			"twice:B:all:stop", "sdother", "sdself", "call:CS:all:stop"} {
+			e.do(kase{SBal: e27, RBal: "0", CBal: new(big.Int).Add(vv, dd).String(), Prog: prog,
+				Blocks: [][]txSpec{{{Kind: "call", To: []string{"C0"}, Amt: []string{"0"}, Gas: "5000000"}}}})
+			e.do(kase{SBal: new(big.Int).Add(new(big.Int).Add(feeWei, big.NewInt(5000000000000000)), dd).String(), RBal: "0", CBal: e27, Prog: prog,
+				Blocks: [][]txSpec{{{Kind: "call", To: []string{"C0"}, Amt: []string{"0"}, Gas: "5000000"}}}})
 		}
 	}
 	// ---- Q: sequences of two and three transactions over a reduced alphabet
